@@ -12,6 +12,7 @@ import json
 import os
 import struct
 import sys
+import time
 
 from verif.engines import compile_sim as cs
 from verif.gen import basemibs, mibgen
@@ -365,6 +366,17 @@ def gen_c(rng, tier):
             'persistent': rng.random() < 0.5}
 
 
+def _c_zip(scn, rng):
+    if rng.random() < 0.25:
+        scn['zip_tz'] = rng.choice(['CET-1CEST,M3.5.0,M10.5.0/3', 'EST5EDT,M3.2.0,M11.1.0', 'IST-5:30', 'UTC'])
+        scn['persistent'] = False        # a ZipReader reads the archive directory once, at construction
+        scn['src_skew'] = int(scn['src_skew'])
+        for o in scn['ops']:
+            if o['op'] == 'advance':
+                o['dt'] = int(o['dt']) * 2     # whole, even seconds: ZIP time resolution
+    return scn
+
+
 def run_c(scn):
     from pysmi.compiler import MibCompiler
     from pysmi.reader.localfile import FileReader
@@ -394,6 +406,23 @@ def run_c(scn):
                 src_m[n] = t_src0
         dst_m = {}
         persistent = None
+        ztz = scn.get('zip_tz')
+        zp = os.path.join(root, 'sources.zip')
+
+        def rebuild_zip():
+            # the sources live in a ZIP archive whose member times are local wall-clock fields (2 s resolution)
+            import zipfile
+            with core.unhooked():
+                with zipfile.ZipFile(zp, 'w', zipfile.ZIP_DEFLATED) as z:
+                    for n_ in sorted(texts):
+                        zi = zipfile.ZipInfo(n_, core.R.localtime(int(src_m[n_]))[:6])
+                        z.writestr(zi, texts[n_])
+        if ztz:
+            os.environ['TZ'] = ztz
+            time.tzset()
+            for n_ in src_m:
+                src_m[n_] = float(int(src_m[n_]) // 2 * 2)
+            rebuild_zip()
         w = core.World(root=root, clock=core.EPOCH0, listing_seed=scn.get('listing_seed'))
         core.patch_pysmi()
         sig = []
@@ -406,12 +435,19 @@ def run_c(scn):
                     with core.unhooked():
                         os.utime(os.path.join(src, op['name']), (w.now, w.now))
                     src_m[op['name']] = w.now
+                    if ztz:
+                        src_m[op['name']] = float(int(w.now) // 2 * 2)
+                        rebuild_zip()
                 else:
                     if persistent is None or not scn.get('persistent'):
                         # a long-lived compiler (one searcher/reader/writer object for the whole history) in
                         # 'persistent' worlds, a fresh set of objects per call otherwise
                         comp = MibCompiler(cs.get_parser(), cs.new_codegen('json'), FileWriter(dst).setOptions(suffix='.json'))
-                        comp.addSources(FileReader(src))
+                        if ztz:
+                            from pysmi.reader.zipreader import ZipReader
+                            comp.addSources(ZipReader(zp))
+                        else:
+                            comp.addSources(FileReader(src))
                         comp.addSearchers(AnyFileSearcher(dst).setOptions(exts=['.json']))
                         persistent = comp
                     comp = persistent
@@ -468,6 +504,9 @@ def run_c(scn):
                 'probes': {'layer-c': 1, 'c-equal-mtime-case': 1 if any(s[1] == 'eq' for s in sig) else 0},
                 'fp': fp, 'fph': fph, 'comps': {'compile(real reader/writer/searcher)': sum(1 for o in scn['ops'] if o['op'] == 'compile')}}
     finally:
+        if scn.get('zip_tz'):
+            os.environ['TZ'] = 'UTC'
+            time.tzset()
         cs.get_parser()
         core.drop_root(root)
 
@@ -522,7 +561,7 @@ def generate(rng, tier):
         if rng.random() < 0.15:
             base['late_pkg'] = True
         return base
-    return gen_c(rng, tier)
+    return _c_zip(gen_c(rng, tier), rng)
 
 
 def shrink(scn):
